@@ -462,7 +462,9 @@ func (w *c26World) state() string {
 			reps = append(reps, kvp{a, s})
 		}
 	}
-	sort.Slice(reps, func(i, j int) bool { return len(reps[i].a) > len(reps[j].a) || (len(reps[i].a) == len(reps[j].a) && reps[i].a < reps[j].a) })
+	sort.Slice(reps, func(i, j int) bool {
+		return len(reps[i].a) > len(reps[j].a) || (len(reps[i].a) == len(reps[j].a) && reps[i].a < reps[j].a)
+	})
 	var out []string
 	for _, ln := range w.kv.snapshot() {
 		if strings.HasPrefix(ln, "S /tunnel/bundle/") {
